@@ -314,10 +314,34 @@ func (x *c12Runner) eval(st c12State, d c12Dev) (fs []verifFinding) {
 		return
 	}
 	ver := st.Name[:2]
+	reacted := r.Err != ""
 	for _, ev := range r.Events {
 		if ev.Kind == 'P' && SMPEvent(ev.Code) == SMPEventSuccess && !d.GenuineFirst {
 			bad("success-on-deviant-message:"+ver+":"+d.Class, "the victim reports SMP success")
 		}
+		if ev.Kind == 'P' || ev.Kind == 'M' {
+			reacted = true
+		}
+	}
+	if len(r.Out) > 0 {
+		reacted = true
+	}
+	if d.Class == "sequence" {
+		// a well-formed message that the state does not expect: "aborts, reports cheating or error"
+		abortish := false
+		for _, ev := range r.Events {
+			if c := SMPEvent(ev.Code); ev.Kind == 'P' && (c == SMPEventError || c == SMPEventCheated || c == SMPEventAbort || c == SMPEventFailure) {
+				abortish = true
+			}
+		}
+		if !abortish {
+			bad("out-of-sequence-message-not-refused", "events %s: neither error, cheating, failure nor abort is reported", verifEventsString(r.Events))
+		}
+	}
+	if !reacted && !d.GenuineFirst {
+		// "the party aborts, reports cheating or error": a deviant message that is swallowed without any event, error
+		// or reply has been accepted into the state machine
+		bad("deviant-message-swallowed:"+d.Class, "no event, no error, no reply: the message was taken in silently")
 	}
 	// a reply the victim sends is delivered to the real peer; whatever comes back must not give success either
 	w.push(st.V, r.Out)
